@@ -16,6 +16,14 @@ NOTES = ("Every check = TLA+ specification under spec/ checked by TLC + conforma
          "known_findings.json lists genuine defects (known / fixed).")
 NOT_APPLICABLE = {}
 CHECKS = {
+    "C19": {
+        "level": "model_checking",
+        "technique": "TLA+ specs CounterScopes.tla (declarative scopes vs stack algorithm) and CounterStyles.tla (representation generator as a transition system) model-checked by TLC; every terminal state replayed into html/boxes and css/counters",
+        "text": "TLC checks on every tree of N elements x counter operations that the stack-and-scope algorithm observes exactly the instances the CSS "
+                "scoping rules define (Agree), and that the counter-representation machine terminates through any extends/fallback graph; the real "
+                "code must show the same counters() text / markers in the box tree and print the same representation for every style and value.",
+        "note": "Bounded trees, values -4..9 (+ landmark values for predefined styles), single-character symbols; one known finding (single-tuple additive style rejected, pinned by an existing test).",
+    },
     "C03": {
         "level": "model_checking",
         "technique": "TLA+ spec Cascade.tla (declarative Winner vs implementation-shaped insertion machine) model-checked by TLC; every scenario materialised as a real document and replayed through tree.GetAllComputedStyles",
